@@ -313,6 +313,37 @@ def fam_disc_live(rng, n, tag="dlive"):
         out.append(s)
     return out
 
+def fam_late_packet(rng, n, tag="late"):
+    """three peers; C stops simulating (it only polls), so A and B come to hold exactly the same input of it;
+    A drops C with disconnect_player, B learns of the drop from A's gossip; only then C produces one or two
+    more frames, whose packets reach B (the C->A direction is down): a packet from a player already marked
+    dropped must not move B's cut-off away from A's"""
+    out = []
+    for i in range(n):
+        w = rng.choice([8, 12])
+        lat = rng.choice([5, 10, 20])
+        s = Scen("%s_%d" % (tag, i), players=3, window=w, lat=lat, seed=rng.randrange(1 << 30),
+                 sparse=rng.randrange(2), pred=rng.choice(["repeat", "default"]), inputrun=rng.choice([1, 3]),
+                 timeout=5000, notify=2000)
+        _topology(rng, s, 3, 3, delays=(0, 0, 1))
+        t_stop = 12 * lat + rng.randrange(600, 1500)
+        t_disc = t_stop + 3 * lat + rng.choice([30, 50, 70])
+        t_late = t_disc + 3 * lat + rng.choice([30, 60, 100])
+        end = t_late + rng.choice([800, 1500])
+        s.link(3, 1, outages=[(t_stop + 1, 10**9)])
+        for p in (1, 2):
+            s.ticks(p, rng.randrange(0, 16), end, 16)
+        s.ticks(3, rng.randrange(0, 16), t_stop, 16)
+        for tp in range(t_stop, t_late, 16):
+            s.at(tp, "poll", 3)
+        for k in range(rng.choice([1, 2, 3])):
+            s.at(t_late + 16 * k, "tick", 3)
+        for tp in range(t_late + 64, t_late + 400, 16):
+            s.at(tp, "poll", 3)
+        s.at(t_disc, "disc", 1, 2)
+        out.append(s)
+    return out
+
 def fam_death_long(rng, n, tag="dlong"):
     """2-3 peers with desync detection on; one dies cleanly and is dropped by timeout; the survivors keep
     playing for many seconds after the dead peer's endpoint has gone from Disconnected to Shutdown (5 s):
